@@ -4,7 +4,7 @@
 import json, os, re, shutil, subprocess, sys
 P, k = sys.argv[1], sys.argv[2]
 extra = sys.argv[3:]
-src = "/tmp/seed-%s/%s" % (P, k)
+src = "%s-%s/%s" % (os.environ.get("SEEDROOT", "/tmp/seed"), P, k)
 checks = [P] + [c for c in extra if c != P]
 out = subprocess.run(["/verif/tools/seedeval.sh", src] + checks, capture_output=True, text=True).stdout
 print(out)
@@ -20,7 +20,7 @@ for line in out.splitlines():
                         "signatures": [s.strip() for s in mm.group(5).split(";") if s.strip()]})
 if not (suite_ok and demo_ok):
     print("NOT CONFIRMED (suite_ok=%s demo_ok=%s) — not kept" % (suite_ok, demo_ok)); sys.exit(1)
-dst = "/verif/seeded/%s-%s" % (P, k)
+dst = "/verif/seeded/%s-%s%s" % (P, os.environ.get("SEEDTAG", ""), k)
 os.makedirs(dst, exist_ok=True)
 shutil.copy(src + "/patch.diff", dst + "/patch.diff")
 shutil.copy(src + "/demo_test.go", dst + "/demo_test.go")
